@@ -999,6 +999,10 @@ SUBS = {'maps': case_maps, 'coeff': case_coeff, 'reject': case_reject,
         'solve': case_solve}
 
 
+FUZZ = {'reject': (reject_strategy(), case_reject),
+        'coeff': (coeff_strategy(), case_coeff)}
+
+
 def run(ctx):
     ctx.regression(SUBS)
     ctx.explore('maps', maps_strategy(), case_maps, ctx.n(2000, 8000))
@@ -1015,3 +1019,5 @@ def run(ctx):
     # ... plus free exploration
     ctx.explore('reject', reject_strategy(), case_reject, ctx.n(800, 4000))
     ctx.explore('solve', solve_strategy(), case_solve, ctx.n(120, 700))
+    ctx.fuzz('reject', ctx.n(300, 6000))
+    ctx.fuzz('coeff', ctx.n(150, 3000))
